@@ -475,7 +475,11 @@ func (x *Exec) Run(lines []string) {
 				x.Findings = append(x.Findings, finding{Clause: "C17-signers-panic", Detail: "GetSigners panicked after successful validation", Cmd: l})
 			}
 		case "EXPORTIMPORT":
-			r := x.C.ExportImport()
+			r, efs := x.C.ExportImport()
+			for _, ef := range efs {
+				x.Flag(ef.Clause, ef.Detail)
+				x.Stats["c08:"+ef.Clause]++
+			}
 			x.Out.Cmd(l, strings.Join(strings.Split(r, " ")[:2], " "))
 			x.Stats["exportimport:"+r]++
 			for _, m := range x.Mons {
